@@ -588,7 +588,7 @@ pub fn parts() -> Vec<Box<dyn PartDyn>> {
     vec![Box::new(Part::<Case> {
         name: "e2e",
         rule: "live sessions (1-4 channels on threads: idle, with a synchronous call left in flight by a withheld reply, or publishing and calling in a loop; 0-2 consumers each; optionally a delivery left half assembled) hit by one fault: EOF or an I/O error (5 kinds) at a generated byte offset of the server->client stream, an I/O error on the n-th client write, a malformed frame (3 constructions) at a frame boundary, a server Connection.Close(code, text), a frame forcing the client-exception path, or (rarely, 1 s heartbeat) server silence; oracle: the connection ends and the transport is released, every call in flight fails, later synchronous calls fail, nowait calls fail once close has returned, every consumer queue terminates, Connection::close names the root cause (variant, io kind, code/text), no panic, everything within seconds; non-trivial = the fault struck with a call in flight on another thread or with content half assembled; distinct by case hash",
-        cases: |t| t.pick(1200, 30_000),
+        cases: |t| t.pick(2000, 30_000),
         threads: 12,
         strategy: strat,
         exec,
